@@ -711,6 +711,27 @@ pub fn run_scenario(sc: &Value, ex: &mut Exec) -> usize {
                     None => "err:no-shutdown-pending".into(),
                 }
             }
+            "WStep" => {
+                // the held asynchronous writer thread handles ONE message and parks at the next one (which must be queued
+                // already); without a writer thread (synchronous modes) nothing to do
+                let id = "flexi_logger-async_file_writer";
+                if !hh.sched_on.load(Ordering::SeqCst) || cfg.mode != "async" {
+                    "noop".into()
+                } else if hh.wait_parked(id, std::time::Duration::from_millis(5000)).is_none() {
+                    "blocked:not-parked".into()
+                } else {
+                    let seen = hh.park_count(id);
+                    hh.release(id, 1);
+                    match hh.wait_new_park(id, seen, std::time::Duration::from_millis(5000)) {
+                        Some(_) => "ok".into(),
+                        None => "blocked:no-park".into(),
+                    }
+                }
+            }
+            "WFree" => {
+                hh.sched_off();
+                "ok".into()
+            }
             "HoldWriter" => {
                 // the asynchronous writer thread parks at its next hook point (sc:writer_recv): what is logged from
                 // now on stays in the channel until the thread is released
